@@ -298,7 +298,7 @@ class _NoTruth:
 class _NoLen:
     def __len__(self):
         raise TypeError("broken sized object")
-NON_FRAMES = [5, None, "ab", b"\x01\x02", [1, 0]]
+NON_FRAMES = [5, None, "ab", b"\x01\x02", [1, 0], 0, 0.0, False, 0j, "", b"", (), 1]
 
 
 def ops_strategy():
@@ -578,6 +578,11 @@ def _interp(ops):
                 f, m, _ = pick(op[1])
                 other = NON_FRAMES[op[2]]
                 expect_raise(lambda: f + other, FAMILY, f, m, out, where, "add-non-frame")
+                expect_raise(lambda: other + f, FAMILY, f, m, out, where, "non-frame-plus-frame")
+                if op[2] % 3 == 0:
+                    # sum() starts from the int 0: joining frames that way is a concatenation with a non-frame
+                    expect_raise(lambda: sum([f]), FAMILY, f, m, out, where, "sum-of-frames")
+                    expect_raise(lambda: sum([f, f]), FAMILY, f, m, out, where, "sum-of-frames")
             elif kind == "observe":
                 f, m, _ = pick(op[1])
                 deep_agree(f, m, out, where, touched[-4:])
